@@ -280,22 +280,22 @@ def run_impl(p):
                         x = (RunLengthArray.from_array(dense * 2 + par) // 2).astype(p["dta"])
                         xe, xv = x._events.copy(), np.asarray(x._values).copy()
                         if not np.array_equal(x.to_array(), dense.astype(p["dta"])):
-                            raise AssertionError("harness: derived operand does not decode to the intended cells")
+                            raise engine.Inconsistent("harness: derived operand does not decode to the intended cells")
                 if p.get("iop"):
                     import operator
                     ye, yv = y._events.copy(), np.asarray(y._values).copy()
                     res = getattr(operator, {"add": "iadd", "subtract": "isub", "multiply": "imul", "bitwise_and": "iand", "bitwise_or": "ior", "bitwise_xor": "ixor"}[p["f"]])(x, y)
                     if not (np.array_equal(y._events, ye) and np.array_equal(np.asarray(y._values), yv) and np.array_equal(y.to_array(), _vals(p["b"], p["dtb"], p.get("vmb", True)))):
-                        raise AssertionError("the right operand of an augmented assignment changed")
+                        raise engine.Inconsistent("the right operand of an augmented assignment changed")
                     if len(res) != len(p["a"]) or int(res.size) != len(p["a"]):
-                        raise AssertionError("the result of an augmented assignment reports another length than its cells")
+                        raise engine.Inconsistent("the result of an augmented assignment reports another length than its cells")
                     x = RunLengthArray.from_array(_vals(p["a"], p["dta"], p.get("vm", True)))       # (x itself may legitimately be the result now)
                 else:
                     res = uf(x, y)
                 if p.get("split"):
                     again = x.to_array()
                     if not np.array_equal(again, _vals(p["a"], p["dta"], p.get("vm", True))):
-                        raise AssertionError("an operand decodes to other cells after the operation")
+                        raise engine.Inconsistent("an operand decodes to other cells after the operation")
             o = _rl(res, joined=(k == "arrays"))
             if isinstance(o, dict) and o.get("k") == "obs":
                 o["operand_unmodified"] = canon(bool(np.array_equal(x._events, xe) and np.array_equal(np.asarray(x._values), xv, equal_nan=(xv.dtype.kind == "f"))))
